@@ -39,7 +39,9 @@ META = {
         "(all buffer sizes again), and once more by ONE parser object that ran to end of input and was rewound with seek(0); "
         "one token of 4095..9000 bytes of every lexical class (beyond the default buffer and CPython's 4300-digit int limit); "
         "the token objects of every two runs are also compared with the library's own == (names and keywords are interned "
-        "objects), also after 40000 distinct names were tokenised in the process. A case is one string (distinct by construction within a family); non-trivial = the reference run "
+        "objects), also after 40000 distinct names were tokenised in the process; every string over the 27-symbol alphabet up to seek_len "
+        "(and over the 13 steering symbols up to sigma12_len-1) once more with settings.STRICT=True (nothing but end of input may be signalled in either mode), and once more with the parser's "
+        "read-only helpers tell(), poll() and poll(1,3) called between every two tokens (the sequence must equal the run without them, for every buffer size). A case is one string (distinct by construction within a family); non-trivial = the reference run "
         "yields at least one token. states = strings (nodes of the string tree), transitions = (string, BUFSIZ) runs, "
         "traces = strings whose every run was compared with the single-buffer reference."
     ),
@@ -143,8 +145,23 @@ def canon_tok(t):
     return (type(t).__name__, t)
 
 
+# configuration / call-history dimensions switched on by the 'strict' and 'poll' families
+MODE = {"strict": False, "poll": False}
+
+
 def tokenize(data: bytes, bufsiz: int, seek: int = 0):
     """Return (tokens, problems). problems is a list of (kind, detail)."""
+    from pdfminer import settings
+
+    old = settings.STRICT
+    settings.STRICT = MODE["strict"]
+    try:
+        return _tokenize(data, bufsiz, seek)
+    finally:
+        settings.STRICT = old
+
+
+def _tokenize(data: bytes, bufsiz: int, seek: int = 0):
     _mon_init()
     p = CountingParser(io.BytesIO(data))
     p.BUFSIZ = bufsiz
@@ -163,6 +180,11 @@ def tokenize(data: bytes, bufsiz: int, seek: int = 0):
             pos, t = p.nexttoken()
             toks.append((pos, canon_tok(t)))
             raw.append(t)
+            if MODE["poll"]:
+                # the parser's read-only helpers between two tokens must not disturb the scan
+                p.tell()
+                p.poll()
+                p.poll(1, 3)
             if len(toks) > len(data) + 2:
                 problems.append(("more-tokens-than-bytes", len(toks)))
                 break
@@ -205,16 +227,20 @@ def _abort_if_livelock(problems) -> None:
 
 
 def check_string(data: bytes, st, fam: str) -> None:
-    ref, prob = tokenize(data, 4096)
+    polling, MODE["poll"] = MODE["poll"], False
+    try:
+        ref, prob = tokenize(data, 4096)  # the reference run never uses the helpers
+    finally:
+        MODE["poll"] = polling
     ref_raw = list(LAST_RAW)
     st.states += 1
     st.transitions += 1
     st.case(None, nontrivial=bool(ref), outcome=tuple(t[1][0] for t in ref))
-    case = {"data": data}
+    case = {"data": data, **{k: True for k, v in MODE.items() if v}}
     for kind, detail in prob:
         st.violation(f"C14/{kind}:{detail if kind=='exception' else ''}", {**case, "bufsiz": 4096}, "only PSEOF; positions in range", detail, kind)
     _abort_if_livelock(prob)
-    for b in range(1, len(data) + 2):
+    for b in list(range(1, len(data) + 2)) + ([4096] if MODE["poll"] else []):
         toks, prob2 = tokenize(data, b)
         st.transitions += 1
         for kind, detail in prob2:
@@ -314,6 +340,8 @@ def shards(tier):
     out += [("sx", "short")] + [("sx", i) for i in range(len(full))]
     out += [("seek", i) for i in range(len(SIGMA))]
     out += [("reuse", i) for i in range(len(SIGMA))]
+    out += [("strict", i) for i in range(len(SIGMA))] + [("strict12", i) for i in range(len(SIGMA12))]
+    out += [("poll", i) for i in range(len(SIGMA))]
     out += [("long",), ("names",)]
     return out
 
@@ -336,6 +364,17 @@ def run_shard(shard, tier, st):
 def _run_shard(shard, tier, st):
     b = BOUNDS[tier]
     fam = shard[0]
+    if fam in ("strict", "strict12", "poll"):
+        MODE["strict" if fam != "poll" else "poll"] = True
+        try:
+            alpha, maxlen = (SIGMA12, b["sigma12_len"] - 1) if fam == "strict12" else (SIGMA, b["seek_len"])
+            for data in _strings(alpha, [alpha[shard[1]]], maxlen):
+                check_string(data, st, fam)
+            if shard[1] == 0:
+                st.sample({"family": fam, "last_string": data, "settings.STRICT": MODE["strict"], "helpers_between_tokens": MODE["poll"]})
+        finally:
+            MODE["strict"] = MODE["poll"] = False
+        return
     if fam == "seek":
         for data in _strings(SIGMA, [SIGMA[shard[1]]], b["seek_len"]):
             check_seek(data, st)
@@ -409,8 +448,13 @@ def replay(case):
             _run_shard(("names",), "quick", st)
         return [{"signature": v["signature"], "expected": v["expected"], "observed": v["observed"]} for v in st.violations]
     sk = case.get("seek", 0)
+    MODE["strict"] = bool(case.get("strict"))
     ref, prob = tokenize(data, 4096, seek=sk)
-    toks, prob2 = tokenize(data, case["bufsiz"], seek=sk)
+    MODE["poll"] = bool(case.get("poll"))
+    try:
+        toks, prob2 = tokenize(data, case["bufsiz"], seek=sk)
+    finally:
+        MODE["strict"] = MODE["poll"] = False
     out = []
     for kind, detail in prob2:
         out.append({"signature": f"C14/{kind}:{detail if kind=='exception' else ''}", "expected": "only PSEOF; positions in range", "observed": repr(detail)})
